@@ -4174,7 +4174,10 @@ pub fn is_arg_by_pointer(resolve: &Resolve, ty: &Type) -> bool {
 }
 
 pub fn to_c_ident(name: &str) -> String {
-    match name {
+    // WIT names are kebab-case while the keywords below are spelled with `_`
+    // (`static_assert`, `wchar_t`, ...), so compare the snake-cased name.
+    let snake = name.to_snake_case();
+    match snake.as_str() {
         // Escape C and C++ keywords.
         // Source: https://en.cppreference.com/w/cpp/keyword
         "alignas" => "alignas_".into(),
@@ -4283,7 +4286,7 @@ pub fn to_c_ident(name: &str) -> String {
         "stdin" => "stdin_".into(),
         "stdout" => "stdout_".into(),
         "stderr" => "stderr_".into(),
-        s => s.to_snake_case(),
+        _ => snake.clone(),
     }
 }
 
